@@ -9,8 +9,8 @@ CONSTANTS
   Amounts = {1, 3, 10, 25}
   Pairs = 1
   WdAmounts = {10}
-  CfgIds = {2, 3, 4, 6, 8, 9, 11, 12}
-  ScenIds = {1, 2, 4}
+  CfgIds = {8, 11, 12}
+  ScenIds = {1, 2}
   FixIds = {0}
   VaryPrices = FALSE
   EmitOps = {"deposit", "withdraw"}
